@@ -85,7 +85,7 @@ def _code_digest() -> str:
 
 
 def _table(ctx: Ctx):
-    from . import bounds, classlevel, defassign, expressions, foldeval, mutation, purity, sqlemit, structure, triviality
+    from . import bounds, classlevel, defassign, expressions, foldeval, mutation, purity, sqlemit, structure, triviality, typedcalls
 
     return [
         ("R09.1", lambda: mutation.r09_1_frozen(ctx)),
@@ -119,6 +119,8 @@ def _table(ctx: Ctx):
         ("F27", lambda: classlevel.r_no_shadowing_captures(ctx, "F27")),
         ("F28", lambda: classlevel.r_no_double_formatting(ctx, "F28")),
         ("F29", lambda: defassign.r_definite_assignment(ctx, "F29")),
+        ("F30", lambda: typedcalls.r_typed_attributes(ctx, "F30")),
+        ("F31", lambda: typedcalls.r_call_arity(ctx, "F31")),
         ("R15.1", lambda: structure.r15_1_rewriters_stop_at_locked(ctx)),
     ]
 
